@@ -1,7 +1,7 @@
 (* Model of the allelic split of do_call (cnvlib/call.py lines 62-71) and rescale_baf.
    A BAF is an option Q (None = NaN / missing).  No proofs here. *)
 From Coq Require Import Qround Qabs.
-From CNV Require Import Base.Prelude Gen.CallDefaults Model.Call.
+From CNV Require Import Base.Prelude Gen.CallDefaults Model.Call Model.Threshold.
 
 Local Open Scope Z_scope.
 
@@ -32,3 +32,122 @@ Definition rescale_baf (p : Q) (b : option Q) : option Q :=
   | Some b => Some (Qred ((b - normal_baf * (1 - p)) / p))
   | None => None
   end.
+
+(* ------------------------------------------------------------------------------------
+   do_call as ONE function over a table (filters=None): the pieces above and those of
+   Model/Call.v / Model/Threshold.v composed exactly in the order of the Python body:
+
+     [variants -> baf column]                                  (input: the column after that step)
+     if purity and purity < 1.0:  absolutes = absolute_clonal(...).clip(lower=0)
+                                  log2 = log2_ratios(...);  if variants: baf = rescale_baf(purity, baf)
+     elif method == "clonal":     absolutes = absolute_pure(...)
+     if method == "threshold":    absolutes = absolute_threshold(outarr, ...)   -- sees the REWRITTEN log2
+     if method != "none":         cn = absolutes.round();  if "baf" in outarr: cn1, cn2, NaN masks
+
+   A row carries the oracle values the arithmetic needs: e = 2^log2, and -- used on the
+   purity-adjusted path only -- v2 = log2 of the rewritten ratio and e2 = 2^v2.  The
+   theorems (Proofs/CallDoCall.v) state under which contract on these values the result is
+   the one of the specification functions. *)
+
+Inductive call_method := MNone | MThreshold | MClonal.
+
+Record dc_in := mk_dc_in {
+  d_chrom : string; d_lo : Z; d_hi : Z;
+  d_log2 : option Q;      (* log2 column, None = NaN *)
+  d_e : Q;                (* 2^log2 (unused when log2 is NaN) *)
+  d_baf : option Q;       (* baf column after the `if variants:` step, None = NaN *)
+  d_v2 : Q;               (* log2 of the rewritten ratio (purity-adjusted path only) *)
+  d_e2 : Q }.             (* 2^v2 *)
+
+Record dc_out := mk_dc_out {
+  o_ratio : option Q;     (* 2^(rewritten log2); None: log2 not rewritten, or NaN *)
+  o_log2 : option Q;      (* log2 column of the result, None = NaN *)
+  o_abs : option Q;       (* `absolutes` of the row, when a calling method ran *)
+  o_cn : option Z;        (* cn column; None: method "none" *)
+  o_baf : option Q;       (* baf column of the result *)
+  o_alleles : option (option Z * option Z) }.   (* cn1, cn2 when those columns exist *)
+
+Inductive dc_result :=
+| DcOk (rows : list dc_out)
+| DcAssert            (* AssertionError: unsupported genome build on the purity-adjusted path *)
+| DcNanCast.          (* a NaN absolute copy number reaches .round().astype("int") (clonal method, NaN log2):
+                         outside the model.  Measured: IntCastingNaNError when purity < 1 or a baf column exists
+                         (pandas Series cast); without either the numpy cast silently yields INT64_MIN as cn. *)
+
+(* the rewritten ratio of log2_ratios for a row with finite log2 *)
+Definition dc_ratio (k : Z) (p : Q) (hapx female : bool) (c : cls) (e : Q) : option Q :=
+  snd (call_row_purity k p hapx female c e).
+
+(* `if purity and purity < 1.0: ... elif method == "clonal": ...`
+   -> (log2 the method sees, its 2^, absolutes so far (None: not computed, or NaN), rewritten ratio) *)
+Definition dc_purity_step (m : call_method) (k : Z) (purity : option Q) (hapx female : bool)
+  (build : option string) (first : string) (row : dc_in) : option Q * Q * option Q * option Q :=
+  match use_purity purity with
+  | Some p =>
+      match d_log2 row with
+      | Some _ =>
+          let o := call_row_purity k p hapx female
+                     (row_class build first (d_chrom row) (d_lo row) (d_hi row)) (d_e row) in
+          (Some (d_v2 row), d_e2 row, Some (snd (fst o)), snd o)
+      | None => (None, d_e row, None, None)            (* NaN propagates through every step *)
+      end
+  | None =>
+      match m, d_log2 row with
+      | MClonal, Some _ =>
+          (d_log2 row, d_e row, Some (snd (fst (call_row_pure k hapx (d_chrom row) (d_e row)))), None)
+      | _, _ => (d_log2 row, d_e row, None, None)
+      end
+  end.
+
+(* `if variants: outarr["baf"] = rescale_baf(purity, outarr["baf"])` inside the purity branch *)
+Definition dc_baf (purity : option Q) (variants : bool) (b : option Q) : option Q :=
+  match use_purity purity with
+  | Some p => if variants then rescale_baf p b else b
+  | None => b
+  end.
+
+(* cn and the allelic split from `absolutes` *)
+Definition dc_finish (ratio v1 : option Q) (a : Q) (has_baf : bool) (b : option Q) : dc_out :=
+  let cn := round_he a in
+  mk_dc_out ratio v1 (Some a) (Some cn) (if has_baf then b else None)
+            (if has_baf then Some (alleles a b cn) else None).
+
+Definition do_call_row (m : call_method) (k : Z) (purity : option Q) (hapx female : bool)
+  (build : option string) (ts : list Q) (variants with_baf : bool) (first : string) (row : dc_in)
+  : option dc_out :=
+  let '(v1, e1, abs1, ratio) := dc_purity_step m k purity hapx female build first row in
+  let has_baf := with_baf || variants in
+  let b := dc_baf purity variants (d_baf row) in
+  match m with
+  | MNone => Some (mk_dc_out ratio v1 None None (if has_baf then b else None) None)
+  | MThreshold =>
+      Some (dc_finish ratio v1 (inject_Z (thr_cn v1 e1 ts k (ref_pure (d_chrom row) k hapx))) has_baf b)
+  | MClonal =>
+      match abs1 with
+      | Some a => Some (dc_finish ratio v1 a has_baf b)
+      | None => None
+      end
+  end.
+
+Fixpoint opt_all {A : Type} (l : list (option A)) : option (list A) :=
+  match l with
+  | [] => Some []
+  | None :: _ => None
+  | Some x :: t => match opt_all t with Some r => Some (x :: r) | None => None end
+  end.
+
+Definition dc_first (rows : list dc_in) : string :=
+  match rows with r :: _ => d_chrom r | [] => EmptyString end.
+
+Definition do_call_model (m : call_method) (k : Z) (purity : option Q) (hapx female : bool)
+  (build : option string) (ts : list Q) (variants with_baf : bool) (rows : list dc_in) : dc_result :=
+  let ok := match use_purity purity, build with
+            | Some _, Some b => build_supported b
+            | _, _ => true
+            end in
+  if ok then
+    match opt_all (map (do_call_row m k purity hapx female build ts variants with_baf (dc_first rows)) rows) with
+    | Some out => DcOk out
+    | None => DcNanCast
+    end
+  else DcAssert.
